@@ -7,12 +7,13 @@ Oracle = one plain Python list per variable (None = indeterminate element of a n
 """
 import json
 
+import iterspec
 import lib
 import seqtie
 from lib import Failure, TieResult
 
 HARNESS = "harness/array/arr_harness.cpp"
-DEPS = ["harness/tracked.h"]
+DEPS = ["harness/tracked.h", "harness/iter_script.h"]
 RESET = "arr reset"
 ELEMS = {"tracked": (1, []), "long": (0, ["-DELEM_LONG"]), "uchar": (0, ["-DELEM_UCHAR"]), "double": (0, ["-DELEM_DOUBLE"]),
          # class path of Array.h for a class whose lifetime is not observable (trivially copyable/destructible, non-trivial default ctor)
@@ -25,10 +26,10 @@ PROPS = {
         "technique": "Lean 4 refinement + invariant proof over a slot/block-identity model of Array.h (every constructor, copy/move/assign/swap, both resizes, destruction; class and non-class element paths) to a list specification, lifted to every history over several variables + three-way differential correspondence with lifetime tracking under ASan",
         "level_text": "Machine-checked proof that every construction path holds exactly the stated elements, that each of the 20 modelled operations under the store invariant never fails (no out-of-bounds, destructor on non-object, construction over a live element, leak or bad free), returns the list specification's answer and preserves the invariant, for every length incl. 0, both element-type paths and any number of variables; hence for every history: outputs equal the specification, live values equal the contents, copies own a fresh block (a block-sharing copy is refuted by a double free), moves transfer the block, and after all variables are dropped nothing is live and every block was freed exactly once. Tied to Array.h on every run by running model, Python oracle and the real Array<Tracked/long/unsigned char> on generated histories under ASan/UBSan with allocation counting.",
         "level_note": "Trusted: Lean kernel; transcription of Array.h; malloc/realloc/free/memcpy as block ids (glibc behaviour for size 0); bitwise relocation by realloc assumed sound for the element type (the property's restriction); Array(T*, n, copy=false) excluded; memcpy(dst, nullptr, 0) tolerated (UBSan nonnull check off, see DESIGN).",
-        "lean_modules": ["Tulz.Props.C14"],
+        "lean_modules": ["Tulz.Props.C14", "Tulz.Props.C04Iter"],
         "theorems": ["Tulz.C14_ctor_contents", "Tulz.C14_copy_independent", "Tulz.C14_shallow_copy_refuted",
                      "Tulz.C14_move_transfers", "Tulz.C14_resize", "Tulz.C14_op_refines", "Tulz.C14_history",
-                     "Tulz.C14_class_plain", "Tulz.C14_lifetime"],
+                     "Tulz.C14_class_plain", "Tulz.C14_lifetime", "Tulz.C14_iter_forward", "Tulz.C04_iter_script_positions", "Tulz.C04_iter_operator_laws"],
         "trusted_base": [
             "modelled, not verified: malloc/realloc/free/memcpy as block identities + slot lists (Mem.lean, MemExtra.lean); realloc(p,0) frees and returns null, "
             "malloc(0) returns a unique block (glibc / ASan allocator behaviour); realloc moving or not is not distinguished",
@@ -82,7 +83,15 @@ class Ref:
     def step(self, line):
         t = line.split()
         assert t[0] == "arr"
-        op, a = t[1], [int(x) for x in t[2:]]
+        op = t[1]
+        if op == "it":
+            o = self.need(int(t[2]))
+            self.key = (op, self.cls, min(len(o[0]), 6))
+            try:
+                return iterspec.oracle(o[0], int(t[3]), t[4:]) + " | " + ("d:" if self.cls else "d:?")
+            except iterspec.BadScript:
+                raise Invalid()
+        a = [int(x) for x in t[2:]]
         lost, gained, res = [], [], "ok"
         dfl = 0 if self.cls else None
         self.key = (op, self.cls)
@@ -461,8 +470,11 @@ def gen_random_case(rng, cls, maxlen, maxval=240):
             init = [x for x, v in enumerate(l) if v is not None]
             if init:
                 emit("arr get %d %d" % (i, rng.pick(init)))
-        elif k < 54:
+        elif k < 51:
             emit(("arr peek %d" if None in l else "arr iter %d") % i)
+        elif k < 54:
+            st, cmds = iterspec.gen(rng, l)
+            emit("arr it %d %d %s" % (i, st, " ".join(cmds)))
         elif k < 58:
             emit("arr %s %d" % (rng.pick(["len", "front", "back"]), i))
         elif k < 66:
